@@ -81,6 +81,10 @@ def run(chk, repo, tier):
     # sums them coherently) is the extent arithmetic
     from .extent_rules import extent_identities
     extent_identities(chk, repo, 'C07-i')
+    # intensity and accumulation go through reduce -> _merge: the merged block sits where the floor(n/2) convention of
+    # array_extent / insert puts it
+    from .c06 import merge_helper_rules as _merge_helper_rules
+    _merge_helper_rules(_Remap(chk, {'C06-b': 'C07-a', 'C06-e': 'C07-a'}), repo)
     f, si = insert_stores(repo, TRUE)
     _, sc = insert_stores(repo, FALSE)
     n, ok, det = 0, True, ''
